@@ -4,7 +4,7 @@
    (Model/C17.v); b2u_rows / u2b_rows are the (Big5 code, UCS-2 code) rows of the two UAO files as
    gosync re-reads them on every run (Gen/Big5Tab.v); utf8_std is the RFC 3629 bit layout and
    utf8_valid the strict well-formedness test of Unicode table 3-7 (Proofs/C17_spec.v).
-   Non-vacuity examples: model_examples, mutual_sample (Proofs/C17.v), b2u_rows_sample, u2b_rows_sample. *)
+   Non-vacuity examples: model_examples (Proofs/C17.v), b2u_rows_nonempty, mutual_nonempty (Proofs/C17_sweep_*.v). *)
 From Verif Require Import Base.Common Gen.Big5Tab Model.C17 Proofs.C17.
 
 (* Big5ToUtf8 returns for every input (no Hang, no exhausted fuel, no Crash); at most 3 output bytes per 2 input bytes *)
